@@ -53,6 +53,9 @@ class C10(Check):
         out.append({'kind': 'huge', 'what': 'text', 'size': 11 * 1024 * 1024 if tier == 'thorough' else 10 * 1024 * 1024 + 5000})
         out.append({'kind': 'huge', 'what': 'depth', 'size': 300})
         out.append({'kind': 'schema'})
+        # operations that switch huge-tree support on for their own call (manager default: off)
+        for op in ('get_schema', 'junos-get_configuration-text', 'sros-md_cli_raw_command'):
+            out.append({'kind': 'huge-op', 'op': op, 'size': 10 * 1024 * 1024 + 5000})
         return out
 
     def run_impl(self, case):
@@ -70,6 +73,22 @@ class C10(Check):
                 r = m.get()
                 d = r.data_ele
                 return {'ok': True, 'len': len(r.data_xml)}
+            except Exception as e:
+                return {'ok': False, 'exc': type(e).__name__}
+        if case['kind'] == 'huge-op':
+            big = 'y' * case['size']
+            if case['op'] == 'get_schema':
+                m, s, dh = make_manager(responder=lambda req, mid: '<rpc-reply message-id="%s" xmlns="%s"><data xmlns="%s">%s</data></rpc-reply>' % (mid, BASE, MON, big), raise_mode=0)
+                call = lambda: m.get_schema('m').data
+            elif case['op'] == 'junos-get_configuration-text':
+                m, s, dh = make_manager(profile='junos', responder=lambda req, mid: '<rpc-reply message-id="%s" xmlns="%s"><configuration-text>%s</configuration-text></rpc-reply>' % (mid, BASE, big), raise_mode=0)
+                call = lambda: m.get_configuration(format='text').data_xml
+            else:
+                m, s, dh = make_manager(profile='sros', responder=lambda req, mid: '<rpc-reply message-id="%s" xmlns="%s"><results><md-cli-output-block>%s</md-cli-output-block></results></rpc-reply>' % (mid, BASE, big), raise_mode=0)
+                call = lambda: m.md_cli_raw_command('show').data_xml
+            try:
+                v = call()
+                return {'ok': True, 'len': len(v)}
             except Exception as e:
                 return {'ok': False, 'exc': type(e).__name__}
         if case['kind'] == 'schema':
@@ -142,10 +161,30 @@ class C10(Check):
         return None
 
     def oracle(self, case, io):
+        if case['kind'] == 'huge-op':
+            if not io['ok'] or io['len'] < case['size']:
+                return ('C10:huge-tree-rejected:' + case['op'], '%s enables huge-tree support for its call, yet a reply with a %d-byte text node failed (%s)' % (case['op'], case['size'], io.get('exc')))
+            return None
         if case['kind'] == 'huge':
             if not io['ok']:
                 return ('C10:huge-tree-rejected:' + case['what'], 'reply with a huge %s failed to parse with huge_tree enabled (%s)' % (case['what'], io.get('exc')))
             return None
+        if case['kind'] == 'huge-op':
+            big = 'y' * case['size']
+            if case['op'] == 'get_schema':
+                m, s, dh = make_manager(responder=lambda req, mid: '<rpc-reply message-id="%s" xmlns="%s"><data xmlns="%s">%s</data></rpc-reply>' % (mid, BASE, MON, big), raise_mode=0)
+                call = lambda: m.get_schema('m').data
+            elif case['op'] == 'junos-get_configuration-text':
+                m, s, dh = make_manager(profile='junos', responder=lambda req, mid: '<rpc-reply message-id="%s" xmlns="%s"><configuration-text>%s</configuration-text></rpc-reply>' % (mid, BASE, big), raise_mode=0)
+                call = lambda: m.get_configuration(format='text').data_xml
+            else:
+                m, s, dh = make_manager(profile='sros', responder=lambda req, mid: '<rpc-reply message-id="%s" xmlns="%s"><results><md-cli-output-block>%s</md-cli-output-block></results></rpc-reply>' % (mid, BASE, big), raise_mode=0)
+                call = lambda: m.md_cli_raw_command('show').data_xml
+            try:
+                v = call()
+                return {'ok': True, 'len': len(v)}
+            except Exception as e:
+                return {'ok': False, 'exc': type(e).__name__}
         if case['kind'] == 'schema':
             if io['data'] != io['want']:
                 return ('C10:schema-text-altered', 'get_schema data differs from what the server sent')
